@@ -1,4 +1,5 @@
 """C08 — structural array functions: correspondence of the implementation with the Coq models."""
+import vlib
 from harness import fam_raops, fam_ra2
 TRUSTED = fam_raops.TRUSTED
 ASSUME = ["integer element values (element operations and result dtypes are numpy's own; floats only with exactly representable results)"]
@@ -7,3 +8,7 @@ def run(R, tier, rng):
     fam_raops.run_family(R, tier, rng, set("nonzero subset rslice padded where like concat1".split()))
     fam_ra2.run_c08(R, tier, rng)
     fam_ra2.ownership_stage(R, tier, rng)
+
+
+def translator_tie():
+    return vlib.translator_tie(["rslice"])
